@@ -2115,6 +2115,11 @@ class Engine:
                         if isinstance(v, Raised):
                             outs.append((st1, v))
             return outs + [(st, V('obj', oid='slice!%d' % next(self.counter)))]
+        h = self.contract.hooks.get('slice')
+        if h:
+            r = h(self, obj, sl, st, node)
+            if r is not None:
+                return r
         raise Unsupported(node, 'slice of %r' % (obj,))
 
     def set_item(self, obj, idx, v, st, node):
